@@ -11,6 +11,7 @@ mod hashers;
 mod hsweep;
 #[cfg(feature = "internals")]
 mod chist;
+mod chlive;
 mod ciphers;
 mod explore;
 mod guts;
@@ -34,6 +35,10 @@ fn run_check(name: &str, tier: &str, config: &str) -> Option<Report> {
         "c02" => chist::run("C02", tier, config),
         #[cfg(feature = "internals")]
         "c11" => chist::run("C11", tier, config),
+        #[cfg(not(feature = "internals"))]
+        "c02" => chlive::run_alone("C02", tier, config),
+        #[cfg(not(feature = "internals"))]
+        "c11" => chlive::run_alone("C11", tier, config),
         "c04" => hsweep::run_c04(tier, config),
         "c05" => c05::run(tier, config),
         "c06" => c06::run(tier, config),
@@ -88,7 +93,8 @@ fn main() {
         let specific: Option<bool> = match check.as_str() {
             "C01" => Some(c01::replay(&r)),
             #[cfg(feature = "internals")]
-            "C02" | "C11" => Some(chist::replay(&r)),
+            "C02" | "C11" if r["engine"] == "H" => Some(chist::replay(&r)),
+            "C02" | "C11" if r["engine"] == "H-live" => chlive::replay(&r),
             "C04" | "C05" | "C06" | "C07" => if r.get("msg").is_some() { hsweep::replay(&r) } else { None },
             "C08" => c08::replay(&r),
             "C09" | "C10" => tf::replay(&r),
